@@ -54,7 +54,7 @@ def items(tier, seed):
     its += [("twin", 0)]
     its += [("rs", ch) for ch in K.chunks(rs, 6)]
     its += [("t1", ch) for ch in K.chunks(t1_cases(), 12)]
-    return its
+    return its + K.touched_items(its, 3 if tier == "quick" else 1, ("rs",))
 
 
 def _grad_points(recipe, val, names):
@@ -66,18 +66,32 @@ def _grad_points(recipe, val, names):
     for d in declare(recipe):
         (b.V if d[0] == "vec" else b.M)(d)
     e = b.S(recipe)
+    if K.TOUCH:
+        K.touch(e)
     point = {n: val[n] for n in names["vars"]}
     out = []
+    grads = []
     for w in names["vars"] + ["__unused"]:
         wv = b.S(("var", w)) if w != "__unused" else Variable("__unused")
         try:
             g = gradient(e, wv)
+            grads.append((w, g))
             gv = g.evaluate(point)
             out.append((w, gv, None))
         except SymbolicConcretisation as ex:
             out.append((w, None, ex))
         except Exception as ex:  # noqa: BLE001
             out.append((w, None, ex))
+    if b.params and all(n + "'" in val for n in b.params):
+        # the derivative expression is of the expression AS IT IS NOW: parameters updated after
+        # differentiation contribute their new value (and 0 / 1 simplifications must not have used the old one)
+        for n, p_ in b.params.items():
+            p_.set(val[n + "'"])
+        for w, g in grads:
+            try:
+                out.append((w + "@p'", g.evaluate(point), None))
+            except Exception as ex:  # noqa: BLE001
+                out.append((w + "@p'", None, ex))
     return out
 
 
@@ -86,14 +100,16 @@ def check_recipe(recipe, planted=False):
     from vf.engine.sym import SymbolicConcretisation
     res = []
     names = free_names(recipe)
-    allv = names["vars"] + names["syms"] + names["params"]
-    val = K.sym_val(allv)
+    allv = names["vars"] + names["syms"] + names["params"] + [n + "'" for n in names["params"]]
+    val0 = K.sym_val(allv)
+    val1 = {**val0, **{n: val0[n + "'"] for n in names["params"]}}
     try:
-        paths = list(K.explore(lambda: _grad_points(recipe, val, names), max_paths=600))
+        paths = list(K.explore(lambda: _grad_points(recipe, val0, names), max_paths=600))
     except SymbolicConcretisation as e:
         return [harness_error(f"concretisation: {e}", item=show(recipe))]
     for dec, labels, pc, out in paths:
-        for w, gv, exc in out:
+        for w_, gv, exc in out:
+            w, val = (w_[:-3], val1) if w_.endswith("@p'") else (w_, val0)
             if exc is not None:
                 if isinstance(exc, SymbolicConcretisation):
                     # only acceptable where the formula itself is undefined (e.g. log(0.0))
@@ -110,7 +126,7 @@ def check_recipe(recipe, planted=False):
                     continue
                 sig = f"C02|gradient-raises|{type(exc).__name__}|{K.shape(recipe, 3)}"
                 res.append(violation(sig, f"gradient({show(recipe)}, {w}) raises {type(exc).__name__}: {str(exc)[:120]}",
-                                     dict(kind="raises", recipe=K.enc(recipe), wrt=w, values={})))
+                                     dict(kind="raises", recipe=K.enc(recipe), wrt=w_, values={})))
                 continue
             if w == "__unused":
                 oracle = 0.0
@@ -119,16 +135,21 @@ def check_recipe(recipe, planted=False):
                 ref = Ref(K.dual_val(val, w), diff=1)
                 oracle = K.tangent(ref.S(recipe))
                 dom = ref.dom
+                if val is val1:
+                    # the tree was also built and differentiated at the old parameter values: stay inside the domain there
+                    ref0 = Ref(K.dual_val(val0, w), diff=1)
+                    ref0.S(recipe)
+                    dom = dom + ref0.dom
             if planted:
                 oracle = oracle + 1.0
             v = smt.valid(smt.eq(gv, oracle), pc, dom, timeout_ms=QT[_TIER])
             if v.status == "unsat":
-                res.append(proved(f"d/d{w} {show(recipe)[:80]}"))
+                res.append(proved(f"d/d{w_} {show(recipe)[:80]}"))
             elif v.status == "sat":
                 mv = smt.model_values(v.model, allv)
                 sig = f"C02|wrong-derivative|{K.shape(recipe, 3)}"
-                res.append(violation(sig, f"gradient({show(recipe)}, {w}) differs from d/d{w}",
-                                     dict(kind="value", recipe=K.enc(recipe), wrt=w, values={k: str(x) for k, x in mv.items()})))
+                res.append(violation(sig, f"gradient({show(recipe)}, {w}) differs from d/d{w}" + (" after the parameters were updated" if val is val1 else ""),
+                                     dict(kind="value", recipe=K.enc(recipe), wrt=w_, values={k: str(x) for k, x in mv.items()})))
             else:
                 res.append(inconclusive(f"unknown: d/d{w} {show(recipe)}"))
     return res
@@ -136,15 +157,10 @@ def check_recipe(recipe, planted=False):
 
 def check(item):
     kind, payload = item
+    if kind == "touched":
+        return K.run_touched(check, payload)
     if kind == "rs":
-        out = []
-        for r in payload:
-            try:
-                out += check_recipe(r)
-            except Exception as e:  # noqa: BLE001
-                import traceback
-                out.append(harness_error(f"{type(e).__name__}: {e}", item=show(r), tb=traceback.format_exc()[-1200:]))
-        return out
+        return K.safe_items(check_recipe, payload, show)
     if kind == "twin":
         # reachability twin: a planted wrong oracle must be refuted, dom must be satisfiable
         from vf.engine import smt
@@ -291,12 +307,15 @@ def replay_t1(payload):
 
 
 def replay(payload):
+    r_ = K.replay_touched(replay, payload)
+    if r_ is not None:
+        return r_
     if payload.get("kind") == "t1":
         return replay_t1(payload)
     recipe = K.dec(payload["recipe"])
     w = payload["wrt"]
     names = free_names(recipe)
-    allv = names["vars"] + names["syms"] + names["params"]
+    allv = names["vars"] + names["syms"] + names["params"] + [n + "'" for n in names["params"]]
     if payload["kind"] == "raises":
         pt = {n: 0.7 for n in allv}
         out = _grad_points(recipe, pt, names)
@@ -310,8 +329,12 @@ def replay(payload):
                 got = [g for ww, g, exc in _grad_points(recipe, pt, names) if ww == w]
                 if not got or got[0] is None:
                     continue
-                if w == "__unused":
+                if w.startswith("__unused"):
                     ref, ok = 0.0, True
+                elif w.endswith("@p'"):
+                    r, ok = K.concrete_ref(recipe, {**pt, **{n: pt[n + "'"] for n in names["params"]}}, diff=1, wrt=w[:-3])
+                    ok = ok and K.concrete_ref(recipe, pt, diff=1, wrt=w[:-3])[1]
+                    ref = K.tangent(r)
                 else:
                     r, ok = K.concrete_ref(recipe, pt, diff=1, wrt=w)
                     ref = K.tangent(r)
